@@ -1,4 +1,5 @@
 import VyxalModel.Model.Transpile
+import VyxalModel.Model.Placed
 import VyxalModel.Lemmas.Strings
 import VyxalModel.Lemmas.Number
 import VyxalModel.Lemmas.LexInv
@@ -268,5 +269,471 @@ theorem template_names_ok (name : Str) (k : Nat) :
   · exact List.all_eq_true.mpr (digits_ident k)
   · simp only [List.all_append, Bool.and_eq_true]
     exact ⟨by decide, List.all_eq_true.mpr (digits_ident k)⟩
+
+/-! ## the tree-level theorem: every identifier of the generated program is sanitised -/
+
+@[local simp] theorem ex_ok_bind {ε α β} (a : α) (f : α → Except ε β) : ((Except.ok a : Except ε α) >>= f) = f a := rfl
+@[local simp] theorem ex_err_bind {ε α β} (e : ε) (f : α → Except ε β) : ((Except.error e : Except ε α) >>= f) = .error e := rfl
+@[local simp] theorem ex_map_ok {ε α β} (a : α) (f : α → β) : (f <$> (Except.ok a : Except ε α)) = .ok (f a) := rfl
+@[local simp] theorem ex_map_err {ε α β} (e : ε) (f : α → β) : (f <$> (Except.error e : Except ε α)) = .error e := rfl
+@[local simp] theorem ex_pure {ε α} (a : α) : (pure a : Except ε α) = .ok a := rfl
+
+def TablesHoles (env : TEnv) : Prop := (env.elements ++ env.modifiers).all entryHoles = true
+
+theorem holesL_append (a b : List PyStmt) : holesL (a ++ b) = (holesL a && holesL b) := by
+  induction a with
+  | nil => simp [holesL]
+  | cons s r ih => simp [holesL, ih, Bool.and_assoc]
+
+theorem holes_orPass (b : List PyStmt) (h : holesL b = true) : holesL (orPass b) = true := by
+  unfold orPass
+  cases b with
+  | nil => simp [holesL, holesS]
+  | cons s r => simpa using h
+
+theorem tok_holes (env : TEnv) (hT : TablesHoles env) (t : Token) (r : List PyStmt) (hv : vtokOK t = true)
+    (h : transpileToken env t = .ok r) : holesL r = true := by
+  apply token_holes_ok env ?_ t r ?_ h
+  · unfold TablesHoles at hT
+    rw [List.all_append, Bool.and_eq_true] at hT
+    exact hT.1
+  · intro hk c hc
+    unfold vtokOK at hv
+    rcases hk with hk | hk <;> simp only [hk] at hv <;> exact List.all_eq_true.mp hv c hc
+
+theorem lookup_mem (tbl : List Gen.Entry) (k : Str) (e : Gen.Entry) (h : lookupEntry tbl k = some e) : e ∈ tbl := by
+  have : ∀ (l : List Gen.Entry) (acc : Option Gen.Entry),
+      l.foldl (fun acc e => if e.key = k then some e else acc) acc = some e → e ∈ l ∨ acc = some e := by
+    intro l
+    induction l with
+    | nil => intro acc h; exact Or.inr h
+    | cons x xs ih =>
+      intro acc h
+      simp only [List.foldl_cons] at h
+      rcases ih _ h with h1 | h1
+      · exact Or.inl (List.mem_cons_of_mem _ h1)
+      · split at h1
+        · simp at h1; subst h1; exact Or.inl (by simp)
+        · exact Or.inr h1
+  rcases this tbl none h with h1 | h1
+  · exact h1
+  · simp at h1
+
+theorem mod_holes (env : TEnv) (hT : TablesHoles env) (m : Str) (tmpl : List PyStmt) (ht : modTemplate env m = .ok tmpl) :
+    holesL tmpl = true := by
+  unfold modTemplate at ht
+  cases hl : lookupEntry env.modifiers m with
+  | none => simp [hl] at ht; subst ht; simp [holesL, holesS]
+  | some e =>
+    simp only [hl] at ht
+    cases hb : e.body with
+    | none => simp [hb] at ht
+    | some b =>
+      simp [hb] at ht; subst ht
+      have := List.all_eq_true.mp hT e (List.mem_append_right _ (lookup_mem _ _ _ hl))
+      simpa [entryHoles, hb] using this
+
+theorem ifChain_holes : ∀ (cs : List (List PyStmt)), holesLL cs = true → holesL (ifChain cs) = true
+  | [], _ => by simp [ifChain, holesL]
+  | [b0], h => by
+      simp only [holesLL, Bool.and_eq_true] at h
+      simp [ifChain, holesL, holesS, condPop, boolifyCond, assign1, callN, nm, pop1kw, stackE, kwCtx, ctxE, holesE, holesEL, holesKw, h.1]
+  | [b0, b1], h => by
+      simp only [holesLL, Bool.and_eq_true] at h
+      simp [ifChain, holesL, holesS, condPop, boolifyCond, assign1, callN, nm, pop1kw, stackE, kwCtx, ctxE, holesE, holesEL, holesKw, h.1, h.2.1]
+  | b0 :: b1 :: b2 :: rest, h => by
+      simp only [holesLL, Bool.and_eq_true] at h
+      have ih := ifChain_holes (b2 :: rest) (by simp only [holesLL, Bool.and_eq_true]; exact h.2.2)
+      simp only [ifChain]
+      simp [holesL, holesS, holesL_append, condPop, boolifyCond, assign1, callN, nm, pop1kw, stackE, kwCtx, ctxE, holesE, holesEL, holesKw,
+        h.1, h.2.1, ih]
+
+theorem for_holes (var : PyExpr) (body : List PyStmt) (hv : holesE var = true) (hb : holesL body = true) :
+    holesL (forTemplate var body) = true := by
+  simp [forTemplate, holesL, holesS, holesL_append, hb, hv, ctxCall, ctxE, callN, nm, pop1kw, stackE, kwCtx, holesE, holesEL, holesKw]
+
+theorem while_holes (c1 c2 body : List PyStmt) (h1 : holesL c1 = true) (h2 : holesL c2 = true) (hb : holesL body = true) :
+    holesL (c1 ++ [ condPop, .whileS boolifyCond
+      ([ctxCall "context_values" "append" [nm "condition"]] ++ body ++ [ctxCall "context_values" "pop" []] ++ c2 ++ [condPop]) ]) = true := by
+  simp [holesL, holesS, holesL_append, h1, h2, hb, condPop, boolifyCond, assign1, ctxCall, ctxE, callN, nm, pop1kw, stackE, kwCtx, holesE,
+    holesEL, holesKw]
+
+theorem san_all (s : Str) : (sanitise s).all isAlnumU = true := List.all_eq_true.mpr (sanitise_ident s)
+theorem dig_all (k : Nat) : (digitsOfNat k).all isAlnumU = true := List.all_eq_true.mpr (digits_ident k)
+
+theorem fnCall_holes (name : Str) : holesL (fnCallTemplate name) = true := by
+  simp [fnCallTemplate, holesL, holesS, stackE, ctxE, holesE, holesEL, holesKw, san_all]
+
+theorem paramStmt_holes (p : Str) : holesS (paramStmt p) = true := by
+  unfold paramStmt
+  split
+  · simp [holesS, nm, callN, ctxE, holesE, holesEL, holesKw]
+  · split
+    · simp [holesS, nm, pop1kw, kwCtx, ctxE, holesE, holesEL, holesKw]
+    · simp [holesS, assign1, nm, pop1kw, kwCtx, ctxE, holesE, holesEL, holesKw, san_all]
+
+theorem params_holes : ∀ ps : List Str, holesL (ps.map paramStmt) = true
+  | [] => by simp [holesL]
+  | p :: ps => by simp [holesL, paramStmt_holes p, params_holes ps]
+
+theorem fnDef_holes (name : Str) (params : List Str) (body : List PyStmt) (hb : holesL body = true) :
+    holesL (fnDefTemplate name params body) = true := by
+  have hp : holesL (fnDefPrologue name params) = true := by
+    simp [fnDefPrologue, holesL, holesS, holesL_append, params_holes, assign1, ctxCall, ctxE, nm, stackE, holesE, holesEL, holesKw, holesO,
+      san_all]
+  have he : holesL fnDefEpilogue = true := by decide
+  simp [fnDefTemplate, holesL, holesS, holesL_append, hp, he, hb, san_all]
+
+theorem arity_holes (ar : Option Nat) : holesE (arityExpr ar) = true := by
+  cases ar <;> simp [arityExpr, holesE, ctxE]
+
+theorem pyInt_holes (i : Int) : holesE (pyInt i) = true := by
+  unfold pyInt; split <;> simp [holesE]
+
+theorem lambda_holes (k : Nat) (ar : PyExpr) (body : List PyStmt) (har : holesE ar = true) (hb : holesL body = true) :
+    holesL (lambdaTemplate (digitsOfNat k) ar body) = true := by
+  have hp : holesL (lambdaPrologue ar) = true := by
+    simp [lambdaPrologue, holesL, holesS, assign1, ctxCall, ctxE, callN, nm, stackE, kwCtx, holesE, holesEL, holesKw, holesC, holesO, har]
+  have he : holesL lambdaEpilogue = true := by decide
+  simp [lambdaTemplate, holesL, holesS, holesL_append, hp, he, hb, holesE, assign1, push, stackE, holesEL, holesKw, har, dig_all]
+
+theorem listItem_holes (item : List PyStmt) (hi : holesL item = true) : holesL (listItemTemplate item) = true := by
+  have he : holesL listItemEpilogue = true := by decide
+  simp [listItemTemplate, holesL, holesS, holesL_append, hi, he, assign1, callN, nm, stackE, ctxE, holesE, holesEL, holesKw, holesO, holesC]
+
+theorem listItems_holes : ∀ items : List (List PyStmt), holesLL items = true → holesL (items.map listItemTemplate).flatten = true
+  | [], _ => by simp [holesL]
+  | i :: r, h => by
+      simp only [holesLL, Bool.and_eq_true] at h
+      simp [holesL_append, listItem_holes i h.1, listItems_holes r h.2]
+
+theorem list_holes (items : List (List PyStmt)) (h : holesLL items = true) : holesL (listTemplate items) = true := by
+  simp [listTemplate, holesL, holesS, holesL_append, listItems_holes items h, assign1, push, callN, nm, stackE, holesE, holesEL, holesKw]
+
+theorem break_holes (p : Parent) : holesL (breakTemplate p) = true := by cases p <;> decide
+theorem recurse_holes (p : Parent) : holesL (recurseTemplate p) = true := by cases p <;> decide
+
+theorem functionPop_holes (x : String) : holesS (functionPop x) = true := by
+  simp [functionPop, holesS, assign1, nm, pop1pos, stackE, ctxE, holesE, holesEL, holesKw]
+
+mutual
+theorem trS_holes (env : TEnv) (hT : TablesHoles env) : ∀ (s : Structure) (k : Nat) (code : List PyStmt) (k' : Nat),
+    vtokS s = true → transpileS env k s = .ok (code, k') → holesL code = true
+  | .generic t, k, code, k', hp, ht => by
+      simp only [transpileS] at ht
+      cases htt : transpileToken env t with
+      | error e => simp [htt] at ht
+      | ok c => simp [htt] at ht; obtain ⟨h1, _⟩ := ht; subst h1; exact tok_holes env hT t c (by simpa [vtokS] using hp) htt
+  | .brk p, k, code, k', _, ht => by
+      simp [transpileS] at ht; obtain ⟨h1, _⟩ := ht; subst h1; exact break_holes p
+  | .recurse p, k, code, k', _, ht => by
+      simp [transpileS] at ht; obtain ⟨h1, _⟩ := ht; subst h1; exact recurse_holes p
+  | .ifS bs, k, code, k', hp, ht => by
+      simp only [vtokS] at hp
+      simp only [transpileS] at ht
+      cases hll : transpileLL env k bs with
+      | error e => simp [hll] at ht
+      | ok r =>
+        obtain ⟨cs, k1⟩ := r
+        simp [hll] at ht; obtain ⟨h1, _⟩ := ht; subst h1
+        exact ifChain_holes cs (trLL_holes env hT bs k cs k1 hp hll)
+  | .forS names body, k, code, k', hp, ht => by
+      simp only [vtokS] at hp
+      cases names with
+      | nil =>
+        simp only [transpileS] at ht
+        cases hb : transpileL env (k + 1) body with
+        | error e => simp [hb] at ht
+        | ok r =>
+          obtain ⟨b, k2⟩ := r
+          simp [hb] at ht; obtain ⟨h1, _⟩ := ht; subst h1
+          exact for_holes _ _ (by simp [holesE, dig_all]; decide) (holes_orPass b (trL_holes env hT body (k + 1) b k2 hp hb))
+      | cons nm rest =>
+        simp only [transpileS] at ht
+        cases hb : transpileL env k body with
+        | error e => simp [hb] at ht
+        | ok r =>
+          obtain ⟨b, k2⟩ := r
+          simp [hb] at ht; obtain ⟨h1, _⟩ := ht; subst h1
+          have hbw := holes_orPass b (trL_holes env hT body k b k2 hp hb)
+          split
+          · exact for_holes _ _ (by simp [holesE, ctxE]) hbw
+          · exact for_holes _ _ (by simp [holesE, san_all]) hbw
+  | .whileS Option.none body, k, code, k', hp, ht => by
+      simp only [vtokS] at hp
+      simp only [transpileS] at ht
+      cases hc : transpileToken env ⟨.number, [49]⟩ with
+      | error e => simp [hc] at ht
+      | ok c =>
+        cases hb : transpileL env k body with
+        | error e => simp [hc, hb] at ht
+        | ok r =>
+          obtain ⟨b, k2⟩ := r
+          simp [hc, hb] at ht; obtain ⟨h1, _⟩ := ht; subst h1
+          have hcw := tok_holes env hT _ c (by simp [vtokOK]) hc
+          have := while_holes c c (orPass b) hcw hcw (holes_orPass b (trL_holes env hT body k b k2 hp hb))
+          simpa [whileTemplate] using this
+  | .whileS (some cnd) body, k, code, k', hp, ht => by
+      simp only [vtokS, Bool.and_eq_true] at hp
+      simp only [transpileS] at ht
+      cases hc1 : transpileL env k cnd with
+      | error e => simp [hc1] at ht
+      | ok r1 =>
+        obtain ⟨c1, k1⟩ := r1
+        cases hb : transpileL env k1 body with
+        | error e => simp [hc1, hb] at ht
+        | ok r2 =>
+          obtain ⟨b, k2⟩ := r2
+          cases hc2 : transpileL env k2 cnd with
+          | error e => simp [hc1, hb, hc2] at ht
+          | ok r3 =>
+            obtain ⟨c2, k3⟩ := r3
+            simp [hc1, hb, hc2] at ht; obtain ⟨h1, _⟩ := ht; subst h1
+            have := while_holes (orPass c1) (orPass c2) (orPass b) (holes_orPass c1 (trL_holes env hT cnd k c1 k1 hp.1 hc1))
+              (holes_orPass c2 (trL_holes env hT cnd k2 c2 k3 hp.1 hc2)) (holes_orPass b (trL_holes env hT body k1 b k2 hp.2 hb))
+            simpa using this
+  | .fnCall name, k, code, k', _, ht => by
+      simp [transpileS] at ht; obtain ⟨h1, _⟩ := ht; subst h1; exact fnCall_holes name
+  | .fnDef name params body, k, code, k', hp, ht => by
+      simp only [vtokS] at hp
+      simp only [transpileS] at ht
+      cases hb : transpileL env k body with
+      | error e => simp [hb] at ht
+      | ok r =>
+        obtain ⟨b, k2⟩ := r
+        simp [hb] at ht; obtain ⟨h1, _⟩ := ht; subst h1
+        exact fnDef_holes name params _ (holes_orPass b (trL_holes env hT body k b k2 hp hb))
+  | .lam ar body, k, code, k', hp, ht => by
+      simp only [vtokS] at hp
+      simp only [transpileS] at ht
+      cases hb : transpileL env (k + 1) body with
+      | error e => simp [hb] at ht
+      | ok r =>
+        obtain ⟨b, k2⟩ := r
+        simp [hb] at ht; obtain ⟨h1, _⟩ := ht; subst h1
+        exact lambda_holes k _ _ (arity_holes ar) (holes_orPass b (trL_holes env hT body (k + 1) b k2 hp hb))
+  | .lamOp kind body, k, code, k', hp, ht => by
+      simp only [vtokS] at hp
+      simp only [transpileS] at ht
+      cases hb : transpileL env (k + 1) body with
+      | error e => simp [hb] at ht
+      | ok r =>
+        obtain ⟨b, k2⟩ := r
+        cases hta : transpileToken env ⟨.general, lamOpKey kind⟩ with
+        | error e => simp [hb, hta] at ht
+        | ok a =>
+          simp [hb, hta] at ht; obtain ⟨h1, _⟩ := ht; subst h1
+          rw [holesL_append, lambda_holes k _ _ (by simp [holesE]) (holes_orPass b (trL_holes env hT body (k + 1) b k2 hp hb)),
+            tok_holes env hT _ a (by simp [vtokOK]) hta]
+          rfl
+  | .listS items, k, code, k', hp, ht => by
+      simp only [vtokS] at hp
+      simp only [transpileS] at ht
+      cases hll : transpileLL env k items with
+      | error e => simp [hll] at ht
+      | ok r =>
+        obtain ⟨cs, k1⟩ := r
+        simp [hll] at ht; obtain ⟨h1, _⟩ := ht; subst h1
+        exact list_holes cs (trLL_holes env hT items k cs k1 hp hll)
+  | .mon m a, k, code, k', hp, ht => by
+      simp only [vtokS] at hp
+      simp only [transpileS] at ht
+      cases hw : wrapLambda env k a with
+      | error e => simp [hw] at ht
+      | ok r =>
+        obtain ⟨fa, k1⟩ := r
+        cases hmt : modTemplate env m with
+        | error e => simp [hw, hmt] at ht
+        | ok tmpl =>
+          simp [hw, hmt] at ht; obtain ⟨h1, _⟩ := ht; subst h1
+          simp [holesL_append, holesL, wrap_holes env hT a k fa k1 hp hw, functionPop_holes, mod_holes env hT m tmpl hmt]
+  | .dy m a b, k, code, k', hp, ht => by
+      simp only [vtokS, Bool.and_eq_true] at hp
+      simp only [transpileS] at ht
+      cases hwa : wrapLambda env k a with
+      | error e => simp [hwa] at ht
+      | ok r =>
+        obtain ⟨fa, k1⟩ := r
+        cases hwb : wrapLambda env k1 b with
+        | error e => simp [hwa, hwb] at ht
+        | ok r2 =>
+          obtain ⟨fb, k2⟩ := r2
+          cases hmt : modTemplate env m with
+          | error e => simp [hwa, hwb, hmt] at ht
+          | ok tmpl =>
+            simp [hwa, hwb, hmt] at ht; obtain ⟨h1, _⟩ := ht; subst h1
+            simp [holesL_append, holesL, wrap_holes env hT a k fa k1 hp.1 hwa, wrap_holes env hT b k1 fb k2 hp.2 hwb, functionPop_holes,
+              mod_holes env hT m tmpl hmt]
+  | .tri m a b c, k, code, k', hp, ht => by
+      simp only [vtokS, Bool.and_eq_true] at hp
+      simp only [transpileS] at ht
+      cases hwa : wrapLambda env k a with
+      | error e => simp [hwa] at ht
+      | ok r =>
+        obtain ⟨fa, k1⟩ := r
+        cases hwb : wrapLambda env k1 b with
+        | error e => simp [hwa, hwb] at ht
+        | ok r2 =>
+          obtain ⟨fb, k2⟩ := r2
+          cases hwc : wrapLambda env k2 c with
+          | error e => simp [hwa, hwb, hwc] at ht
+          | ok r3 =>
+            obtain ⟨fc, k3⟩ := r3
+            cases hmt : modTemplate env m with
+            | error e => simp [hwa, hwb, hwc, hmt] at ht
+            | ok tmpl =>
+              simp [hwa, hwb, hwc, hmt] at ht; obtain ⟨h1, _⟩ := ht; subst h1
+              simp [holesL_append, holesL, wrap_holes env hT a k fa k1 hp.1.1 hwa, wrap_holes env hT b k1 fb k2 hp.1.2 hwb,
+                wrap_holes env hT c k2 fc k3 hp.2 hwc, functionPop_holes, mod_holes env hT m tmpl hmt]
+theorem wrap_holes (env : TEnv) (hT : TablesHoles env) : ∀ (s : Structure) (k : Nat) (code : List PyStmt) (k' : Nat),
+    vtokS s = true → wrapLambda env k s = .ok (code, k') → holesL code = true
+  | .generic t, k, code, k', hp, hw => by
+      simp only [wrapLambda] at hw
+      cases ht : transpileToken env t with
+      | error e => simp [ht] at hw
+      | ok b =>
+        simp [ht] at hw; obtain ⟨h1, _⟩ := hw; subst h1
+        exact lambda_holes k _ _ (pyInt_holes _) (tok_holes env hT t b (by simpa [vtokS] using hp) ht)
+  | .lam ar body, k, code, k', hp, hw => by
+      simp only [wrapLambda] at hw
+      exact trS_holes env hT (.lam ar body) k code k' hp hw
+  | .brk p, k, code, k', hp, hw => by
+      simp only [wrapLambda] at hw
+      cases hb : transpileS env (k + 1) (.brk p) with
+      | error e => simp [hb] at hw
+      | ok r =>
+        obtain ⟨b, k2⟩ := r; simp [hb] at hw; obtain ⟨h1, _⟩ := hw; subst h1
+        exact lambda_holes k _ _ (by simp [holesE]) (trS_holes env hT _ (k + 1) b k2 hp hb)
+  | .recurse p, k, code, k', hp, hw => by
+      simp only [wrapLambda] at hw
+      cases hb : transpileS env (k + 1) (.recurse p) with
+      | error e => simp [hb] at hw
+      | ok r =>
+        obtain ⟨b, k2⟩ := r; simp [hb] at hw; obtain ⟨h1, _⟩ := hw; subst h1
+        exact lambda_holes k _ _ (by simp [holesE]) (trS_holes env hT _ (k + 1) b k2 hp hb)
+  | .ifS bs, k, code, k', hp, hw => by
+      simp only [wrapLambda] at hw
+      cases hb : transpileS env (k + 1) (.ifS bs) with
+      | error e => simp [hb] at hw
+      | ok r =>
+        obtain ⟨b, k2⟩ := r; simp [hb] at hw; obtain ⟨h1, _⟩ := hw; subst h1
+        exact lambda_holes k _ _ (by simp [holesE]) (trS_holes env hT _ (k + 1) b k2 hp hb)
+  | .forS ns body, k, code, k', hp, hw => by
+      simp only [wrapLambda] at hw
+      cases hb : transpileS env (k + 1) (.forS ns body) with
+      | error e => simp [hb] at hw
+      | ok r =>
+        obtain ⟨b, k2⟩ := r; simp [hb] at hw; obtain ⟨h1, _⟩ := hw; subst h1
+        exact lambda_holes k _ _ (by simp [holesE]) (trS_holes env hT _ (k + 1) b k2 hp hb)
+  | .whileS c body, k, code, k', hp, hw => by
+      simp only [wrapLambda] at hw
+      cases hb : transpileS env (k + 1) (.whileS c body) with
+      | error e => simp [hb] at hw
+      | ok r =>
+        obtain ⟨b, k2⟩ := r; simp [hb] at hw; obtain ⟨h1, _⟩ := hw; subst h1
+        exact lambda_holes k _ _ (by simp [holesE]) (trS_holes env hT _ (k + 1) b k2 hp hb)
+  | .fnCall nme, k, code, k', hp, hw => by
+      simp only [wrapLambda] at hw
+      cases hb : transpileS env (k + 1) (.fnCall nme) with
+      | error e => simp [hb] at hw
+      | ok r =>
+        obtain ⟨b, k2⟩ := r; simp [hb] at hw; obtain ⟨h1, _⟩ := hw; subst h1
+        exact lambda_holes k _ _ (by simp [holesE]) (trS_holes env hT _ (k + 1) b k2 hp hb)
+  | .fnDef nme ps body, k, code, k', hp, hw => by
+      simp only [wrapLambda] at hw
+      cases hb : transpileS env (k + 1) (.fnDef nme ps body) with
+      | error e => simp [hb] at hw
+      | ok r =>
+        obtain ⟨b, k2⟩ := r; simp [hb] at hw; obtain ⟨h1, _⟩ := hw; subst h1
+        exact lambda_holes k _ _ (by simp [holesE]) (trS_holes env hT _ (k + 1) b k2 hp hb)
+  | .lamOp kd body, k, code, k', hp, hw => by
+      simp only [wrapLambda] at hw
+      cases hb : transpileS env (k + 1) (.lamOp kd body) with
+      | error e => simp [hb] at hw
+      | ok r =>
+        obtain ⟨b, k2⟩ := r; simp [hb] at hw; obtain ⟨h1, _⟩ := hw; subst h1
+        exact lambda_holes k _ _ (by simp [holesE]) (trS_holes env hT _ (k + 1) b k2 hp hb)
+  | .listS items, k, code, k', hp, hw => by
+      simp only [wrapLambda] at hw
+      cases hb : transpileS env (k + 1) (.listS items) with
+      | error e => simp [hb] at hw
+      | ok r =>
+        obtain ⟨b, k2⟩ := r; simp [hb] at hw; obtain ⟨h1, _⟩ := hw; subst h1
+        exact lambda_holes k _ _ (by simp [holesE]) (trS_holes env hT _ (k + 1) b k2 hp hb)
+  | .mon m x, k, code, k', hp, hw => by
+      simp only [wrapLambda] at hw
+      cases hb : transpileS env (k + 1) (.mon m x) with
+      | error e => simp [hb] at hw
+      | ok r =>
+        obtain ⟨b, k2⟩ := r; simp [hb] at hw; obtain ⟨h1, _⟩ := hw; subst h1
+        exact lambda_holes k _ _ (by simp [holesE]) (trS_holes env hT _ (k + 1) b k2 hp hb)
+  | .dy m x y, k, code, k', hp, hw => by
+      simp only [wrapLambda] at hw
+      cases hb : transpileS env (k + 1) (.dy m x y) with
+      | error e => simp [hb] at hw
+      | ok r =>
+        obtain ⟨b, k2⟩ := r; simp [hb] at hw; obtain ⟨h1, _⟩ := hw; subst h1
+        exact lambda_holes k _ _ (by simp [holesE]) (trS_holes env hT _ (k + 1) b k2 hp hb)
+  | .tri m x y z, k, code, k', hp, hw => by
+      simp only [wrapLambda] at hw
+      cases hb : transpileS env (k + 1) (.tri m x y z) with
+      | error e => simp [hb] at hw
+      | ok r =>
+        obtain ⟨b, k2⟩ := r; simp [hb] at hw; obtain ⟨h1, _⟩ := hw; subst h1
+        exact lambda_holes k _ _ (by simp [holesE]) (trS_holes env hT _ (k + 1) b k2 hp hb)
+theorem trL_holes (env : TEnv) (hT : TablesHoles env) : ∀ (prog : List Structure) (k : Nat) (code : List PyStmt) (k' : Nat),
+    vtokL prog = true → transpileL env k prog = .ok (code, k') → holesL code = true
+  | [], k, code, k', _, ht => by
+      simp [transpileL] at ht; obtain ⟨h1, _⟩ := ht; subst h1; simp [holesL]
+  | s :: rest, k, code, k', hp, ht => by
+      simp only [vtokL, Bool.and_eq_true] at hp
+      simp only [transpileL] at ht
+      cases hs : transpileS env k s with
+      | error e => simp [hs] at ht
+      | ok r1 =>
+        obtain ⟨a, k1⟩ := r1
+        cases hr : transpileL env k1 rest with
+        | error e => simp [hs, hr] at ht
+        | ok r2 =>
+          obtain ⟨b, k2⟩ := r2
+          simp [hs, hr] at ht; obtain ⟨h1, _⟩ := ht; subst h1
+          rw [holesL_append, trS_holes env hT s k a k1 hp.1 hs, trL_holes env hT rest k1 b k2 hp.2 hr]; rfl
+theorem trLL_holes (env : TEnv) (hT : TablesHoles env) : ∀ (bs : List (List Structure)) (k : Nat) (cs : List (List PyStmt)) (k' : Nat),
+    vtokLL bs = true → transpileLL env k bs = .ok (cs, k') → holesLL cs = true
+  | [], k, cs, k', _, ht => by
+      simp [transpileLL] at ht; obtain ⟨h1, _⟩ := ht; subst h1; simp [holesLL]
+  | b :: rest, k, cs, k', hp, ht => by
+      simp only [vtokLL, Bool.and_eq_true] at hp
+      simp only [transpileLL] at ht
+      cases hl : transpileL env k b with
+      | error e => simp [hl] at ht
+      | ok r1 =>
+        obtain ⟨a, k1⟩ := r1
+        cases hr : transpileLL env k1 rest with
+        | error e => simp [hl, hr] at ht
+        | ok r2 =>
+          obtain ⟨c, k2⟩ := r2
+          simp [hl, hr] at ht; obtain ⟨h1, _⟩ := ht; subst h1
+          simp only [holesLL, Bool.and_eq_true]
+          exact ⟨holes_orPass a (trL_holes env hT b k a k1 hp.1 hl), trLL_holes env hT rest k1 c k2 hp.2 hr⟩
+end
+
+/-- **C18, tree level**: in the Python generated for *any* parsed program — every structure, modifier and token kind, any
+    nesting — every identifier that is derived from program text (variable, function, parameter and loop-variable names, the
+    `_lambda_<k>` counters) consists of letters, digits and underscores after its fixed prefix; everything else the program
+    supplies is a constant (`token_holes_ok`, `escape_is_one_literal`, `number_parts_chars`).  The only hypothesis on the
+    tree is the lexer's own guarantee on variable tokens (`lex_variable_letters`). -/
+theorem names_from_vocabulary (env : TEnv) (hT : TablesHoles env) (prog : List Structure) (hp : vtokL prog = true)
+    (code : List PyStmt) (ht : transpileAst env prog = .ok code) : holesL code = true := by
+  unfold transpileAst at ht
+  cases htl : transpileL env 0 prog with
+  | error e => simp [htl] at ht
+  | ok r =>
+    obtain ⟨c, k'⟩ := r
+    simp [htl] at ht; subst ht
+    exact holes_orPass c (trL_holes env hT prog 0 c k' hp htl)
+
+theorem gen_tables_holes (env : TEnv) (he : env.elements = Gen.elements) (hm : env.modifiers = Gen.modifiers) : TablesHoles env := by
+  unfold TablesHoles; rw [he, hm]; exact tables_have_no_program_holes
 
 end C18
